@@ -69,7 +69,7 @@ Definition c09_ok (interval : Z) (times values : list Z) (started dropped : Z) (
   | t0 :: _ =>
     times_ok t0 interval 0 times &&
     (negb exact ||
-     (let total := zsum values in
+     (let total := zsum (map (Z.max 0) values) in   (* a negative value requests nothing *)
       let refusable := zsum (map (Z.max 0) (skipn (length values - Z.to_nat (late + 1)) values)) in
       (started + dropped <=? total) && (total - refusable <=? started + dropped)))
   end.
